@@ -5,7 +5,8 @@ consistent renaming, byte/token mutations for robustness."""
 
 BLANKS = [" ", "\t", "\n", "\r\n", "  ", "\n\n", " \t "]
 
-COMMENT_TEXTS = ["", "x", " a b ", "\"quote'", "* /", "/ *", "**", "//", "/", "*", "é∂", "*/*", " /* */ ", "\r", "TODO: *"]
+COMMENT_TEXTS = ["", "x", " a b ", "\"quote'", "* /", "/ *", "**", "//", "/", "*", "é∂", "*/*", " /* */ ", "\r", "TODO: *",
+                 "*", " doc *", "***", " x **"]
 
 
 def gen_block_comment(rng, depth=0):
@@ -27,8 +28,8 @@ def _fix_nesting(parts):
         if out and ((out[-1] == "/" and p[:1] == "*") or (out[-1] == "*" and p[:1] == "/")):
             out += " "
         out += p
-    if out[-1:] == "/" or out[-1:] == "*":
-        out += " "
+    if out[-1:] == "/":
+        out += " "          # "/" + "*/" would read as a nested opener; a trailing "*" is fine ("**/" closes)
     return out
 
 
@@ -293,6 +294,11 @@ def rename_plan(lexemes, kinds, rng, avoid_entry_points=True):
                     j -= 1
     cands = sorted(declared - banned)
     plan = {}
+    if rng is None:
+        # deterministic scheme that REVERSES the alphabetical order of the renamed identifiers
+        for k, n in enumerate(cands):
+            plan[n] = "n%03d_%s" % (len(cands) - k, n)
+        return plan
     for n in cands:
         if rng.chance(1, 2):
             plan[n] = "r%d_%s" % (rng.below(1000), n)
